@@ -99,3 +99,14 @@ func ObjectIsSequence(o Object) bool {
 	}
 	return false
 }
+
+// ItemEq compares two items of containers for membership, equality
+// and ordering of the containers: identity first, then ==, so that an
+// object which is not equal to itself (a nan) is still found in the
+// container which holds it
+func ItemEq(a, b Object) (Object, error) {
+	if ObjectIs(a, b) {
+		return True, nil
+	}
+	return Eq(a, b)
+}
